@@ -395,11 +395,11 @@ fn record_trace(scn: &str, params: &str) {
 // S2: the application
 
 struct Variant {
-    name: &'static str,
-    delta_args: &'static [&'static str],
+    name: String,
+    delta_args: Vec<&'static str>,
     /// the command that produced the input
     real_cmd: &'static [&'static str],
-    /// a different command the scan might wrongly... find when delta launched the real one itself
+    /// a different command the scan might find when delta launched the real one itself
     other_cmd: &'static [&'static str],
     input: &'static str,
 }
@@ -407,19 +407,42 @@ struct Variant {
 const DIFF_WD: &str = "diff --git a/src/x.rs b/src/x.rs\nindex 1111111..2222222 100644\n--- a/src/x.rs\n+++ b/src/x.rs\n@@ -1,3 +1,3 @@ fn main()\n let a = 1;\n let [-b-]{+c+} = 2;\n let d = 3;\n";
 const DIFF: &str = "diff --git a/src/x.rs b/src/x.rs\nindex 1111111..2222222 100644\n--- a/src/x.rs\n+++ b/src/x.rs\n@@ -1,3 +1,3 @@ fn main()\n let a = 1;\n-let b = 2;\n+let c = 2;\n let d = 3;\n";
 const BLAME: &str = "aaaaaaa1 (Dan Davison 2021-01-01 10:00:00 +0100  1) fn main() {\naaaaaaa1 (Dan Davison 2021-01-01 10:00:00 +0100  2)     let x = 1;\nbbbbbbb2 (A U Thor    2021-02-01 10:00:00 +0100  3) }\n";
-const GREP: &str = "src/x.rs:10:fn main() {\nsrc/x.rs-11-    let x = 1;\nsrc/y.py:3:def fn():\n";
+// git grep output: match lines (:), context lines (-), function-context header lines (=, from -p / -W), section separators
+const GREP: &str = "src/x.rs=9=fn main() {\nsrc/x.rs:10:    let fn_x = 1;\nsrc/x.rs-11-    let x = 1;\n--\nsrc/y.py=2=class A:\nsrc/y.py:3:def fn():\n";
 const SHOWFILE: &str = "fn main() {\n    let x = \"str\";\n}\n";
 
-const VARIANTS: &[Variant] = &[
-    Variant { name: "word-diff", delta_args: &[], real_cmd: &["git", "diff", "--word-diff"], other_cmd: &["git", "diff"], input: DIFF_WD },
-    Variant { name: "plain-diff", delta_args: &["--line-numbers"], real_cmd: &["git", "diff"], other_cmd: &["git", "diff", "--word-diff"], input: DIFF },
-    Variant { name: "blame", delta_args: &[], real_cmd: &["git", "blame", "src/x.rs"], other_cmd: &["git", "blame", "notes.txt"], input: BLAME },
-    Variant { name: "grep", delta_args: &[], real_cmd: &["git", "grep", "-n", "fn"], other_cmd: &["git", "diff"], input: GREP },
-    Variant { name: "grep-W", delta_args: &[], real_cmd: &["git", "grep", "-W", "-n", "fn"], other_cmd: &["git", "grep", "-n", "fn"], input: GREP },
-    Variant { name: "show-file", delta_args: &[], real_cmd: &["git", "show", "HEAD:src/x.rs"], other_cmd: &["git", "show", "HEAD:notes.txt"], input: SHOWFILE },
-    Variant { name: "relative-paths", delta_args: &["--relative-paths", "--hyperlinks"], real_cmd: &["git", "diff", "--relative"], other_cmd: &["git", "diff"], input: DIFF },
-    Variant { name: "side-by-side-word-diff", delta_args: &["--side-by-side"], real_cmd: &["git", "show", "--word-diff"], other_cmd: &["git", "show"], input: DIFF_WD },
+/// input kinds: (name, command that produced it, another command, input)
+const KINDS: &[(&str, &[&str], &[&str], &str)] = &[
+    ("word-diff", &["git", "diff", "--word-diff"], &["git", "diff"], DIFF_WD),
+    ("plain-diff", &["git", "diff"], &["git", "diff", "--word-diff"], DIFF),
+    ("relative-diff", &["git", "diff", "--relative"], &["git", "diff"], DIFF),
+    ("show-word-diff", &["git", "show", "--color-words"], &["git", "show"], DIFF_WD),
+    ("blame", &["git", "blame", "src/x.rs"], &["git", "blame", "notes.txt"], BLAME),
+    ("grep", &["git", "grep", "-n", "fn"], &["git", "diff"], GREP),
+    ("grep-p", &["git", "grep", "-p", "-n", "fn"], &["git", "grep", "-n", "fn"], GREP),
+    ("grep-W", &["git", "grep", "-W", "-n", "fn"], &["git", "grep", "-n", "fn"], GREP),
+    ("rg", &["rg", "fn"], &["git", "grep", "fn"], GREP),
+    ("show-file", &["git", "show", "HEAD:src/x.rs"], &["git", "show", "HEAD:notes.txt"], SHOWFILE),
 ];
+
+/// option sets crossed with every input kind: each reaches other call sites of calling_process()
+const OPTION_SETS: &[(&str, &[&str])] = &[
+    ("default", &[]),
+    ("line-numbers", &["--line-numbers"]),
+    ("side-by-side", &["--side-by-side"]),
+    ("hyperlinks", &["--hyperlinks"]),
+    ("relative-hyperlinks-navigate", &["--relative-paths", "--hyperlinks", "--navigate"]),
+];
+
+fn variants() -> Vec<Variant> {
+    let mut v = Vec::new();
+    for (kname, real, other, input) in KINDS {
+        for (oname, opts) in OPTION_SETS {
+            v.push(Variant { name: format!("{}/{}", kname, oname), delta_args: opts.to_vec(), real_cmd: real, other_cmd: other, input });
+        }
+    }
+    v
+}
 
 /// Run delta the way main.rs does, return the rendered bytes.
 fn render(v: &Variant, launched: bool, scan_finds: Option<Vec<String>>, scan_yields: usize, sequential: bool) -> Vec<u8> {
@@ -435,7 +458,7 @@ fn render(v: &Variant, launched: bool, scan_finds: Option<Vec<String>>, scan_yie
         }
     }
     let mut args: Vec<std::ffi::OsString> = vec!["delta".into(), "--no-gitconfig".into(), "--width".into(), "100".into(), "--paging".into(), "never".into()];
-    for a in v.delta_args {
+    for a in &v.delta_args {
         args.push((*a).into());
     }
     if launched {
@@ -481,9 +504,10 @@ fn scenario_s2(reference_pass: bool, fixed: Option<(usize, bool)>) {
     let _ = dh::trace_take();
     let (vi, launched) = match fixed {
         Some(x) => x,
-        None => (rnd(VARIANTS.len() as u64) as usize, rnd(2) == 0),
+        None => (rnd(variants().len() as u64) as usize, rnd(2) == 0),
     };
-    let v = &VARIANTS[vi];
+    let all = variants();
+    let v = &all[vi];
     // what the scan finds: when delta launched the command, the scan may find something else
     // (it must never win); otherwise it finds the real producer of the input.
     let scan_finds: Option<Vec<String>> = if launched {
@@ -533,7 +557,7 @@ fn config(dir: &str, big_stack: bool) -> Config {
 
 fn s2_references(dir: &str) {
     // sequential reference outputs, one deterministic execution per (variant, launched)
-    for vi in 0..VARIANTS.len() {
+    for vi in 0..variants().len() {
         for launched in [false, true] {
             let runner = Runner::new(Recording { inner: RandomScheduler::new_from_seed(1, 1) }, config(dir, true));
             runner.run(move || scenario_s2(true, Some((vi, launched))));
@@ -544,7 +568,7 @@ fn s2_references(dir: &str) {
     // something else or nothing) or the background scan found the producer.
     let refs = REFS.lock().unwrap();
     if let Some(m) = refs.as_ref() {
-        for v in VARIANTS {
+        for v in variants().iter() {
             let a = m.get(&format!("{}:false", v.name));
             let b = m.get(&format!("{}:true", v.name));
             if let (Some(a), Some(b)) = (a, b) {
